@@ -6,6 +6,7 @@
 //   facts constsoftype <pkgdir> <Type>   prints "<name> <value>" for every package-level constant of the named type
 //   facts maplit <file.go> <varname>     prints "<key src>\t<value src>" per entry of the composite (map) literal that
 //                                        initialises the package-level variable; fails if the variable is missing
+//   facts varsrc <file.go> <var>         prints the source text of a package-level var initialiser
 package main
 
 import (
@@ -257,6 +258,29 @@ func main() {
 			return
 		}
 		fail("func %s not found", os.Args[3])
+	case "varsrc":
+		// (added for C10) prints the normalised source text of the initialiser of a package-level var, e.g. a map literal
+		fset := token.NewFileSet()
+		f, err := parser.ParseFile(fset, os.Args[2], nil, parser.SkipObjectResolution)
+		if err != nil {
+			fail("parse: %v", err)
+		}
+		for _, d := range f.Decls {
+			gd, ok := d.(*ast.GenDecl)
+			if !ok || gd.Tok != token.VAR {
+				continue
+			}
+			for _, sp := range gd.Specs {
+				vs := sp.(*ast.ValueSpec)
+				for i, nm := range vs.Names {
+					if nm.Name == os.Args[3] && i < len(vs.Values) {
+						fmt.Println(src(fset, vs.Values[i]))
+						return
+					}
+				}
+			}
+		}
+		fail("var %s not found", os.Args[3])
 	default:
 		fail("unknown subcommand")
 	}
